@@ -103,6 +103,28 @@ def status_table(http_mir):
 
 
 # ---------------------------------------------------------------- executor extensions
+def canon_state(s):
+    """fields of a coroutine's saved state, `(((*_40) as variant#5).0: T)` and `((*_40).2: T)`, become
+    pseudo-locals `_40v5f0` / `_40f2` (the state object is only ever reached through that one pointer)"""
+    while True:
+        m = re.search(r"\(\(\(\*(_\d+)\) as variant#(\d+)\)\.(\d+): ", s) or re.search(r"\(\(\*(_\d+)\)\.(\d+): ", s)
+        if not m:
+            return s
+        depth, i = 0, m.start()
+        while i < len(s):
+            if s[i] == "(":
+                depth += 1
+            elif s[i] == ")":
+                depth -= 1
+                if depth == 0:
+                    break
+            i += 1
+        g = m.groups()
+        n = int(g[0][1:])
+        name = f"_9{n:03d}{int(g[1]):02d}{int(g[2]):02d}" if len(g) == 3 else f"_8{n:03d}{int(g[1]):02d}"
+        s = s[:m.start()] + name + s[i + 1:]
+
+
 def vcenum(term, name="StatusCode"):
     return Val("cenum", term=str(term), name=name)
 
@@ -134,7 +156,21 @@ class Exec15(Executor):
 
     def parse_place(self, s):
         # coroutine state variants are printed as `variant#3`
-        return super().parse_place(s.replace("variant#", "variantN"))
+        return super().parse_place(canon_state(s).replace("variant#", "variantN"))
+
+    def read_place(self, st, s):
+        s = canon_state(s)
+        base = re.match(r"[\(\*]*(_\d+)", s.strip())
+        if base and base.group(1) not in st.env and re.fullmatch(r"_[89]\d{5,7}", base.group(1)):
+            # a field of the coroutine's saved state that these paths never wrote: not interpreted
+            st.env[base.group(1)] = vopaque("state-field" + base.group(1))
+        return super().read_place(st, s)
+
+    def operand(self, st, s):
+        s = s.strip()
+        if s.startswith("no_retag "):
+            s = s[len("no_retag "):]
+        return super().operand(st, s)
 
     def rvalue(self, st, r, dest_ty):
         r = r.strip()
@@ -148,6 +184,12 @@ class Exec15(Executor):
             v = self.operand(st, m.group(1))
             if v.kind == "cenum":
                 return self.cast(st, vint(v.term, "u16"), m.group(2).strip(), "IntToInt")
+        m = re.fullmatch(r"(\{closure@[^}]*\}) \{ (.*) \}", r)
+        if m:
+            fields = []
+            for f in split_top(m.group(2)):
+                fields.append(self.operand(st, re.match(r"\w+: (.*)$", f).group(1)))
+            return vagg(fields, name=m.group(1))
         m = re.fullmatch(r"([\w:<>,\s&'\(\)\[\]\{\}]*?)::(Ready|Pending)(?:\((.*)\))?", r)
         if m:
             from .mir import venum
@@ -167,10 +209,16 @@ class Exec15(Executor):
             return  # coroutine state bookkeeping
         if l.startswith("// DBG") or l.startswith("//"):
             return
+        line = canon_state(line)
+        l = canon_state(l)
         super().stmt(st, line)
         if self.stop_re and re.search(self.stop_re, l):
             dest = l.split(" = ")[0].strip()
             raise _StopPath(Stop("accepted", st.env.get(dest)))
+
+    def term(self, st, line, depth):
+        # `{async fn body of X::new()}` inside a callee path would end the callee at its `(`
+        return super().term(st, canon_state(line).replace("()}", "}"), depth)
 
     def _block(self, st, bb, depth):
         if depth > 300:
@@ -227,6 +275,22 @@ class Contracts15:
             return [("true", Panic(msg))]
         if re.fullmatch(r"(?:[\w:]+::)?ResponseAsync::status", c):
             return [("true", vcenum("st"))]
+        if re.search(r"as (?:std::future::)?IntoFuture>::into_future$", c):
+            return [("true", args[0])]
+        if re.search(r"Response(?:::)?<Vec<u8>>::new\} as (?:futures_util::|std::future::)?Future>::poll$", c):
+            from .mir import venum
+            fut = tok(args[0])
+            return [("(= pollres 0)", venum("Poll", "Pending", [])),
+                    ("(= pollres 1)", venum("Poll", "Ready", [venum("Result", "Ok", [vopaque("CLASSIFIED-OK[" + fut + "]")])])),
+                    ("(= pollres 2)", venum("Poll", "Ready", [venum("Result", "Err", [vopaque("CLASSIFIED-ERR[" + fut + "]")])]))]
+        if re.search(r"Result::<.*>::and_then::<", c):
+            from .mir import venum
+            r0 = args[0]
+            if r0.kind == "enum" and r0.variant == "Err":
+                return [("true", r0)]
+            if r0.kind == "enum" and r0.variant == "Ok":
+                return [("true", vopaque("decode(" + tok(r0.fields[0]) + ", " + tok(args[1]) + ")"))]
+            raise Unsupported("and_then on a value that is not a concrete Result")
         # values the decided part does not depend on: opaque tokens that remember how they were made
         self.opaque_calls.add(c)
         return [("true", vopaque(c + "(" + ", ".join(tok(a) for a in args) + ")"))]
@@ -384,6 +448,29 @@ def run_property(prop, cfg, tier, known, only=None):
                 sample["queries"].append(q)
                 return False
             res["decided"] += 1
+            if var == "shellerr":
+                # obligations about a shell-reported error: the counterexample is the error kind, replayed natively
+                bad = None
+                for kind in ("io", "url", "timeout"):
+                    p_ = subprocess.run([binp], input=f"E {kind}\n", capture_output=True, text=True, timeout=120)
+                    ln = p_.stdout.strip()
+                    got, _, sent = ln.partition(" | SENT ")
+                    if got != "APPERR " + sent:
+                        bad = (kind, ln)
+                        break
+                q["native"] = bad[1] if bad else "every shell error kind is passed through natively"
+                sample["queries"].append(q)
+                if not bad:
+                    inconclusive(f"{unit} {name}: does not hold on the MIR but the real API passes every shell error through: encoder or contract is wrong")
+                    return False
+                os.makedirs(os.path.join(REPLAYS, prop), exist_ok=True)
+                rp = os.path.join(REPLAYS, prop, f"{unit}-shell-error-{bad[0]}.json")
+                json.dump({"property": prop, "engine": "mir", "module": "c15", "unit": unit, "shell_error": bad[0], "native": bad[1], "obligation": name}, open(rp, "w"), indent=1)
+                say(f"VIOLATION property={prop} replay={rp}")
+                say(f"  {unit}: {name}: the shell reported `{bad[0]}`; real code -> {bad[1]}")
+                res["findings"].append({"known": False, "unit": unit, "desc": name, "replay": rp})
+                state["code"] = EXIT_VIOLATION
+                return False
             val = model.get(var)
             q["counterexample"] = {var: val}
             nline = native_one(binp, val) if var == "n" else None
@@ -535,8 +622,9 @@ def run_property(prop, cfg, tier, known, only=None):
                         raise Unsupported(f"error outcome is not HttpError::Http: {tok(payload)}")
                     code, _msg, body = payload.fields
                     body_ok = body.kind == "enum" and body.variant == "Some" and tok(body.fields[0]) == "BODY"
+                    code_eq = f"(= {code.term} st)" if code.kind in ("int", "cenum") else "false"
                     oblige(unit, "HttpError::Http only for 4xx/5xx, carrying the status", pc,
-                           f"(and (>= st 400) (<= st 599) (= {code.term} st) {'true' if body_ok else 'false'})", "st", sample)
+                           f"(and (>= st 400) (<= st 599) {code_eq} {'true' if body_ok else 'false'})", "st", sample)
                 else:
                     kinds.add("ok")
                     if not (payload.kind == "agg" and "Response" in (payload.name or "") and len(payload.fields) == 4):
@@ -545,12 +633,70 @@ def run_property(prop, cfg, tier, known, only=None):
                     body_ok = body.kind == "enum" and body.variant == "Some" and tok(body.fields[0]) == "BODY"
                     hdr_ok = "Clone>::clone" in tok(headers) and "as_ref" in tok(headers)
                     sample["headers_dataflow"] = tok(headers)[:160]
+                    status_eq = f"(= {status.term} st)" if status.kind in ("int", "cenum") else "false"
                     oblige(unit, "success only for 1xx-3xx, carrying the status, the body and a clone of the response's headers", pc,
-                           f"(and (>= st 100) (<= st 399) (= {status.term} st) {'true' if body_ok and hdr_ok else 'false'})", "st", sample)
+                           f"(and (>= st 100) (<= st 399) {status_eq} {'true' if body_ok and hdr_ok else 'false'})", "st", sample)
             if kinds != {"ok", "err"}:
                 inconclusive(f"{unit}: expected a success path and an error path, found {sorted(kinds)}")
             # the table lies inside 100..=599, so the two classes cover every representable status
             oblige(unit, "every representable status is 1xx-5xx", [], "(and (>= st 100) (<= st 599))", "st", sample)
+        except (Unsupported, KeyError, IndexError, AttributeError, ValueError, TypeError) as u:
+            inconclusive(f"{unit}: encoder gap: {type(u).__name__}: {u}")
+        res["samples"].append(sample)
+        say(f"  [{unit:>22}] paths={sample.get('paths')} obligations={len(sample['queries'])}")
+
+        # ---- E: the command API's builder future, from the shell's answer to the value handed to the app
+        unit = "command_send_result"
+        sample = {"unit": unit, "what": "crux_http command API (RequestBuilder::build's async block, entered where the shell's HttpResult arrives): a shell error is handed to the app unchanged and nothing else happens; an Ok response goes through From<HttpResponse> and Response::new exactly once, an HttpError::Http from the classification is handed on unchanged, a success goes to the body expectation's decode", "queries": []}
+        try:
+            fnE = one_fn(crux_mir, r"^fn command::<impl at crux_http/src/command\.rs:[\d: ]+>::build::\{closure#0\}::\{closure#0\}\(_1: Pin<&mut \{async block", "RequestBuilder::build async block")
+            entry = [bb for bb, lines in fnE.blocks.items() if any(re.search(r"= move \(\((_\d+) as Ready\)\.0: protocol::HttpResult\)", l) for l in lines)]
+            if len(entry) != 1:
+                raise Unsupported(f"expected one block receiving the shell's HttpResult, found {entry}")
+            src_local = re.search(r"move \(\((_\d+) as Ready\)", "\n".join(fnE.blocks[entry[0]])).group(1)
+            from .mir import venum
+            for s_ in (z3, cv):
+                s_.send("(declare-const pollres Int)")
+                s_.send("(assert (and (>= pollres 0) (<= pollres 2)))")
+            for shell, payload in (("Err", "SHELLERR"), ("Ok", "SHELLRESP")):
+                env = {src_local: venum("Poll", "Ready", [venum("HttpResult", shell, [vopaque(payload)])])}
+                for p_, _ in fnE.params:
+                    env[p_] = vopaque("coroutine-arg")
+                text = "\n".join(sum(fnE.blocks.values(), []))
+                for loc in set(re.findall(r"\(\*(_\d+)\)", text)):
+                    env.setdefault(loc, vopaque("coroutine-state"))
+                # fields of the saved state that are read before being written on these paths (captured values)
+                for m_ in set(re.findall(r"\(\(\*(_\d+)\)\.(\d+): ", text)):
+                    env.setdefault(f"_8{int(m_[0][1:]):03d}{int(m_[1]):02d}", vopaque(f"captured{m_[1]}"))
+                contractsE = Contracts15(http_mir, table)
+                exE = Exec15(fnE, contractsE, table)
+                pathsE = exE.run_from(State(env, []), entry[0])
+                sample.setdefault("paths", 0)
+                sample["paths"] += len(pathsE)
+                sample["mir_steps"] = sample.get("mir_steps", 0) + exE.steps
+                called = " ".join(sorted(contractsE.used))
+                for pc, outcome, notes in pathsE:
+                    if isinstance(outcome, Panic):
+                        oblige(unit, f"shell {shell}: no panic ({outcome.msg[:40]})", pc, "false", "shellerr" if shell == "Err" else "st", sample)
+                        continue
+                    t = tok(outcome)
+                    if shell == "Err":
+                        good = t == "Ready(Err(SHELLERR))" and "Into<ResponseAsync>" not in called and "Response::<Vec<u8>>::new" not in called
+                        oblige(unit, "a shell error reaches the app unchanged, nothing else is done", pc, "true" if good else "false", "shellerr", sample)
+                        sample["shell_error_outcome"] = t[:120]
+                    else:
+                        fut = "new(<HttpResponse as Into<ResponseAsync>>::into(SHELLRESP))"
+                        want = {0: "Pending()", 1: None, 2: "Ready(Err(CLASSIFIED-ERR["}
+                        if t.startswith("Pending"):
+                            g = "(= pollres 0)"
+                        elif t.startswith("Ready(Err(CLASSIFIED-ERR[") and "Into<ResponseAsync>>::into(SHELLRESP)" in t:
+                            g = "(= pollres 2)"
+                        elif t.startswith("Ready(decode(CLASSIFIED-OK[") and "Into<ResponseAsync>>::into(SHELLRESP)" in t:
+                            g = "(= pollres 1)"
+                        else:
+                            g = "false"
+                        oblige(unit, f"shell Ok: the classified outcome is handed on [{t[:36]}]", pc, g, "st", sample)
+            sample["mir_function"] = fnE.name[-60:]
         except (Unsupported, KeyError, IndexError, AttributeError, ValueError, TypeError) as u:
             inconclusive(f"{unit}: encoder gap: {type(u).__name__}: {u}")
         res["samples"].append(sample)
@@ -604,6 +750,11 @@ def replay_file(path):
     if not ok:
         say("native driver does not build")
         return EXIT_INCONCLUSIVE
+    if "shell_error" in rec:
+        p_ = subprocess.run([binp], input=f"E {rec['shell_error']}\n", capture_output=True, text=True, timeout=120)
+        got, _, sent = p_.stdout.strip().partition(" | SENT ")
+        say(f"shell error `{rec['shell_error']}`: the app must receive {sent}; real code now: {got}")
+        return EXIT_VIOLATION if got != "APPERR " + sent else EXIT_OK
     ln = native_one(binp, rec["status"])
     say(f"status {rec['status']}: the property demands {rec['expected']}; real code now: {ln}   (recorded: {rec['native']})")
     return EXIT_VIOLATION if native_deviates(rec["status"], ln) else EXIT_OK
